@@ -9,13 +9,13 @@ committed (/repo d6aa4e3), so ONLY its shape of `SetOutputBuffer` is accepted (a
 the raw connection; `Props.C07Stack.second_identify_leaks_cleartext`) breaks this tie, and the replay
 corpus/C07/fixed/second_identify.stack then reports `second-identify-cleartext` as a VIOLATION.
 
-Round 11 (fix review, F30b): `UpgradeTLS` is accepted in exactly TWO shapes — d6aa4e3 (it leaves `c.flateWriter`
-alone: `Props.C07Stack.output_on_negotiated_transport_k_false`, open finding `tls-after-deflate-garbled`) and
-d6aa4e3 + F30b (`c.flateWriter = nil` in front of the new writer). `tree` is computed from the facts and the driver,
-the harness's expectations and `Props.C07Stack.this_tree_k` follow it.
-**After F30b is committed to /repo**: in `upgrades_shape` and `flate_writers` drop the first disjunct (`tlsF30`, the
-list without `UpgradeTLS`), replace `tree_known` by `tree_is_F30b : tree = treeF30b := by decide`, and discharge the
-hypothesis of `Props.C07Stack.this_tree_k_full` with it.
+Round 11 (fix review, F30b): F30b is committed (/repo d424240), so ONLY its shape of `UpgradeTLS` is accepted:
+`c.flateWriter = nil` in front of the new writer. The shape of d6aa4e3 alone (`tlsF30`: `UpgradeTLS` leaves
+`c.flateWriter`; `Props.C07Stack.output_on_negotiated_transport_k_false`, finding `tls-after-deflate-garbled`, listed
+fixed) breaks `upgrades_shape`, `flate_writers` and `tree_is_F30b`, and the replay
+corpus/C07/fixed/tls_after_deflate.stack then reports `tls-after-deflate-garbled` as a VIOLATION. `tree` is still
+computed from the facts (the driver and the harness's expectations follow it, so a reverted tree is replayed by the
+model of THAT tree); `tree_is_F30b` decides it and discharges the hypothesis of `Props.C07Stack.this_tree_k_full`.
 The behavioural half is the white-box leg `stack` (harness/e1/reident_test.go) and the multi-IDENTIFY class of the
 end-to-end oracle. -/
 namespace Nsq.Tie.WireStack
@@ -29,10 +29,10 @@ theorem tree_fixed : treeFixed = true := by decide
 /-- the three upgrades install a new writer on a new transport; each records that very transport in `outputDest`
 (so `SetOutputBuffer` re-uses it), nothing else assigns `outputDest`. TLS always wraps the RAW connection
 (`tls.Server(c.Conn, …)`), snappy / deflate wrap the current TLS session if there is one, the raw connection
-otherwise. `UpgradeDeflate` stores its writer in `c.flateWriter`, `UpgradeSnappy` drops it, `UpgradeTLS` leaves it
-(d6aa4e3) or drops it (F30b). -/
+otherwise. `UpgradeDeflate` stores its writer in `c.flateWriter`, `UpgradeSnappy` drops it (F30), `UpgradeTLS` drops it
+(F30b, /repo d424240 — the only accepted shape). -/
 theorem upgrades_shape :
-    (upgradeTLSWriter = tlsF30 ∨ upgradeTLSWriter = tlsF30b) ∧
+    upgradeTLSWriter = tlsF30b ∧
     upgradeSnappyWriter = ["assign conn := c.Conn",
                            "if c.tlsConn != nil",
                            "assign conn = c.tlsConn",
@@ -50,11 +50,11 @@ theorem upgrades_shape :
     destWrites = [("UpgradeTLS", "assign"), ("UpgradeDeflate", "assign"), ("UpgradeSnappy", "assign")] := by
   decide
 
-/-- `c.flateWriter` is assigned by the upgrades only, and the list agrees with the shape of `UpgradeTLS` -/
+/-- `c.flateWriter` is assigned by the three upgrades only (all three: F30b), and the list agrees with the shape of
+`UpgradeTLS` -/
 theorem flate_writers :
-    (upgradeTLSWriter = tlsF30 ∧ flateWrites = [("UpgradeDeflate", "assign"), ("UpgradeSnappy", "assign")]) ∨
-    (upgradeTLSWriter = tlsF30b ∧
-      flateWrites = [("UpgradeTLS", "assign"), ("UpgradeDeflate", "assign"), ("UpgradeSnappy", "assign")]) := by
+    upgradeTLSWriter = tlsF30b ∧
+      flateWrites = [("UpgradeTLS", "assign"), ("UpgradeDeflate", "assign"), ("UpgradeSnappy", "assign")] := by
   decide
 
 /-- `Flush`: the buffered writer, then ALWAYS the flate writer if there is one (the model's `KConn.mark`) -/
@@ -62,8 +62,11 @@ theorem flush_shape :
     flushBody = ["assign err := c.Writer.Flush()", "if c.flateWriter != nil", "return return c.flateWriter.Flush()"] := by
   decide
 
-/-- exactly the two trees: d6aa4e3 and d6aa4e3 + F30b -/
-theorem tree_known : tree = treeF30 ∨ tree = treeF30b := by decide
+/-- exactly one tree: d6aa4e3 + F30b (/repo d424240) -/
+theorem tree_is_F30b : tree = treeF30b := by decide
+
+/-- the shape before F30b is a different one: a tree reverted to d6aa4e3 fails the three facts above -/
+theorem tls_shapes_differ : tlsF30 ≠ tlsF30b ∧ treeF30 ≠ treeF30b := by decide
 
 /-- the model's alphabet is complete: `client.Writer` is assigned by these four functions only -/
 theorem writer_writers :
